@@ -53,6 +53,13 @@ CHECKS = {
             'invariance.',
             'Python relation evaluated in-process is the reference; normalised string equality judged only through its '
             'documented consequences; int/float isinstance cells and tolerance-boundary floats skipped.', '3/C07'),
+    'C08': ('Generated (G-SYNTAX grammar), corpus and AST-mutated programs x the complete documented operator table, call '
+            'names, literals incl. near misses, literal types, node kinds and modules at thresholds around the true count; '
+            'differential against a plain ast.walk of CPython\'s own tree',
+            'About 2000 programs x ~150 ensure/prevent/find queries each per quick run; every query is decided by an '
+            'independent count over ast.parse(source), two-directional (fires iff), plus returned-node and reported-line checks.',
+            'ast.walk counts are the reference; interval oracle where the statement leaves a choice (unary +/-, augmented '
+            'assignment, chained comparisons, f-string pieces).', '3/C08'),
 }
 
 NOT_YET = {}
